@@ -1019,7 +1019,7 @@ def bca_expr(case, res, c, db):
             bca_area = image[0x3C0:0x400]
             pv = VL([VI(1 if p256_on_curve(image[0x418:0x458]) else 0),
                      VL([VB(bca_area)]) if len(bca_area) == 64 and bca_area[:4] == b"kcfg" else VL([]),
-                     VB(image[0x400:0x410])])
+                     VB(image[0x400:0x410]), VB(hashlib.sha256(image[0x410:0x498]).digest()[:16])])
     return (f"io_bca ({db.fidx[case['family']]}) ({lit(class_value(c))}) ({lit(bx_value(ob))}) ({lit(kv)}) "
             f"({lit(pcv)}) ({lit(pv)})")
 
@@ -1079,7 +1079,8 @@ def bca_correspondence(bexprs, bplan, cases, results, db, stats):
                     mm = {"app": m[0], "lifecycle": m[1], "firmware_version": m[2],
                           "cert": (m[3][0] if m[3] else None), "bca": (m[6][0] if m[6] else None),
                           "fcf": (m[7][0] if m[7] else None)}
-                    pp = {k: p[k] for k in ("app", "lifecycle", "firmware_version", "bca", "fcf") if k in p}
+                    mm["add_hash"], mm["just_header"] = bool(m[4]), bool(m[5])
+                    pp = {k: p[k] for k in ("app", "lifecycle", "firmware_version", "bca", "fcf", "add_hash", "just_header") if k in p}
                     if "cert" in p:
                         pp["cert"] = p["cert"].get("export")
                     dfs = [k for k, v in pp.items() if mm[k] != v]
